@@ -17,7 +17,25 @@ R3 acyclic by construction: `add_provenance` is called only from `BaseStep._pers
 R4 `get_entity_ids` maps entities to `persistent_id` and drops only those without one; every concrete
    `Database.add_provenance` inserts one `(dependee=input, depender=token)` row per input (column order of the SQL text).
 R5 (added) inputs are recorded: `input_token_ids` of every `_persist_token` call in a Step is `get_entity_ids(<non-empty>)`,
-   or the combinator's collected `input_ids`, or `[]` only on the branch where the step has no input ports.
+   or the combinator's collected `input_ids`, or `[]` only on the branch where the step has no input ports (the branch test
+   is recognised by what it evaluates -- `self.input_ports`, `get_input_ports()`, a Step method returning a selection of
+   them -- not by the name of the local it is bound to).
+R6 (added) the consumed tag group is what is recorded: in every Step method that groups a received batch by tag
+   (`_group_by_tag(<batch>, <map>)`) and binds a completed group (`<g> = <map>.pop(<tag>)`), nothing in the region dominated
+   by the pop that feeds provenance or the step's own processing (the `input_token_ids` of a `_persist_token`, the arguments
+   of calls to Step methods and of `Job(...)`) is computed from the raw batch (flow-sensitive reaching definitions): the
+   batch holds the *last received* token of every port, which belongs to the completed group only when all ports deliver
+   tags in the same order.  A pop whose result is discarded (DeployStep.run) binds no group: recorded as an observation.
+R7 (added) recorded inputs are persisted before they are recorded: `get_entity_ids` silently drops entities without id, so
+   for every step field read by the `get_entity_ids(...)` collection of a `_persist_token` site, every store of a freshly
+   constructed Token (sub)class instance into that field must be followed by an awaited `<that token>.save(...)` on every
+   path from the construction to a call of the method that records it (or to the exit when there is no such call).
+R8 (added) combinators hand on the ids of everything a combined token is made of: in every method of every `Combinator`
+   subclass, each entry `{'token': T, 'input_ids': I}`: every schema entry whose `['token']` T is computed from (def-use
+   closure, loop / comprehension variables replaced by what they range over) also has its `['input_ids']` (or, for a
+   plain token, its `.persistent_id`) collected in I.  `X[<int>]` on the token side is covered by `<each of X>` in I.
+
+Not decided here: that `inputs` handed to user-defined `transform` / `_on_true` implementations are all used (see META).
 """
 
 from __future__ import annotations
@@ -25,6 +43,7 @@ from __future__ import annotations
 import ast
 import re
 
+from ..dataflow import reaching_defs
 from ..model import parent, unparse
 from ..selftest import V
 from ._util_C import (
@@ -36,6 +55,7 @@ from ._util_C import (
     is_name,
     kwarg,
     leads_only_to_raise,
+    must_pass,
     only_via,
     origins,
     resolves_to,
@@ -54,10 +74,15 @@ PORT = f"{WF}.Port"
 GEI = "streamflow.core.utils.get_entity_ids"
 GJT = "streamflow.workflow.utils.get_job_token"
 DB = "streamflow.core.persistence.Database"
+GROUP = f"{STEPM}._group_by_tag"
+JOB = f"{WF}.Job"
+COMBINATOR = f"{STEPM}.Combinator"
 SFILE = "streamflow/workflow/step.py"
 CWLFILE = "streamflow/cwl/step.py"
 UFILE = "streamflow/core/utils.py"
 QFILE = "streamflow/persistence/sqlite.py"
+CFILE = "streamflow/workflow/combinator.py"
+CWLCFILE = "streamflow/cwl/combinator.py"
 WFILE = "streamflow/core/workflow.py"
 
 META = {
@@ -463,6 +488,31 @@ def r4(ctx):
 # --------------------------------------------------------------------------- R5
 
 
+def _mentions_input_ports(p, f, e, depth=2, _seen=None) -> bool:
+    """`e` evaluates the step's input ports: `self.input_ports`, a call of `get_input_ports`, a call of a Step method whose
+    return values do, or a local bound to such an expression (whatever the local is called)."""
+    _seen = set() if _seen is None else _seen
+    for x in ast.walk(e):
+        if isinstance(x, ast.Attribute) and x.attr == "input_ports":
+            return True
+        if isinstance(x, ast.Call):
+            for r in p.resolve_call(f, x):
+                k = p.functions.get(r)
+                if r.rpartition(".")[2] == "get_input_ports":
+                    return True
+                if k is not None and depth and k.cls is not None and p.is_subclass(k.cls.qualname, STEP_BASE) and r not in _seen:
+                    _seen.add(r)
+                    rets = [n.value for n in k.body_nodes() if isinstance(n, ast.Return) and n.value is not None]
+                    if rets and all(_mentions_input_ports(p, k, v, depth - 1, _seen) for v in rets):
+                        return True
+        if isinstance(x, ast.Name) and isinstance(x.ctx, ast.Load) and (f.qualname, x.id) not in _seen:
+            _seen.add((f.qualname, x.id))
+            ds = [d for d in defs_of(f, x.id) if d.kind in ("assign", "walrus") and d.index is None and d.value is not None]
+            if ds and len(ds) == len(defs_of(f, x.id)) and all(_mentions_input_ports(p, f, d.value, depth, _seen) for d in ds):
+                return True
+    return False
+
+
 def r5(ctx):
     p = ctx.prog
     for f, call in _persist_sites(p, _step_classes(p)):
@@ -493,8 +543,7 @@ def r5(ctx):
             cid = g.node_containing(call)
             tests = [
                 t for t in g.nodes.values()
-                if t.kind == "test" and any(
-                    (isinstance(x, ast.Attribute) and x.attr == "input_ports") or is_name(x, "input_ports") for x in ast.walk(t.ast))
+                if t.kind == "test" and _mentions_input_ports(p, f, t.ast)
                 and not any(isinstance(x, ast.Call) and isinstance(x.func, ast.Name) and x.func.id == "len" for x in ast.walk(t.ast))
             ]
             ok = bool(cid) and any(all(only_via(g, t.id, "f", i) for i in cid) for t in tests)
@@ -502,8 +551,324 @@ def r5(ctx):
         ctx.ob("R5", f"{where}: the consumed inputs are recorded as provenance", ok, func=f, node=call, instance=inst, message=msg)
 
 
-RULES = [("R1", r1), ("R2", r2), ("R3", r3), ("R4", r4), ("R5", r5)]
-FLOORS = {"R1": 40, "R2": 8, "R3": 11, "R4": 2, "R5": 20}
+# --------------------------------------------------------------------------- R6
+
+
+def _def_key(name, d):
+    return (name, d.kind, id(d.stmt))
+
+
+def _slice(f, expr, at, depth=6, _seen=None):
+    """(name, Def) of the local definitions `expr` (evaluated at `at`) is computed from, transitively, following the
+    definitions that *reach* each use (flow-sensitive)."""
+    _seen = {} if _seen is None else _seen
+    for n in ast.walk(expr):
+        if not (isinstance(n, ast.Name) and isinstance(n.ctx, ast.Load)):
+            continue
+        for d in reaching_defs(f, n.id, at):
+            k = _def_key(n.id, d)
+            if k in _seen:
+                continue
+            _seen[k] = (n.id, d)
+            if depth and d.value is not None and d.kind in ("assign", "walrus", "aug", "for", "with"):
+                nxt = d.stmt if isinstance(d.stmt, (ast.stmt, ast.NamedExpr)) else at
+                _slice(f, d.value, nxt, depth - 1, _seen)
+    return list(_seen.values())
+
+
+def _group_sites(p, classes):
+    """(function, batch name, map name, call) for every `_group_by_tag(<batch>, <map>)` in a Step method."""
+    out = []
+    for f, c in p.callers(GROUP):
+        if f.cls is None or f.cls.qualname not in classes:
+            continue
+        b, m = kwarg(c, "inputs", 0), kwarg(c, "inputs_map", 1)
+        out.append((f, b, m, c))
+    out.sort(key=lambda x: (x[0].file, x[0].qualname, x[3].lineno))
+    return out
+
+
+def _processing_args(p, f, node, classes):
+    """(call, argument expressions) of the calls evaluated at a CFG node that hand values to the step's own processing:
+    methods of Step classes and the Job constructor (for `_persist_token` only the recorded ids)."""
+    out = []
+    for c in node.calls():
+        rs = p.resolve_call(f, c)
+        if PERSIST in rs:
+            ids = kwarg(c, "input_token_ids", 2)
+            out.append((c, [ids] if ids is not None else []))
+            continue
+        hit = JOB in rs
+        for r in rs:
+            k = p.functions.get(r)
+            if k is not None and k.cls is not None and k.cls.qualname in classes:
+                hit = True
+        if hit:
+            out.append((c, [*c.args, *[kw.value for kw in c.keywords]]))
+    return out
+
+
+def r6(ctx):
+    p = ctx.prog
+    classes = _step_classes(p)
+    sites = _group_sites(p, classes)
+    ctx.require(len(sites) >= 5, f"C07.R6: only {len(sites)} Step methods group a batch by tag (floor 5)")
+    for f, b, m, gc in sites:
+        where = f.qualname.split(".", 2)[-1]
+        if not (is_name(b) and is_name(m)):
+            ctx.ob("R6", f"{where}: the batch and the grouping map of _group_by_tag are locals", False, func=f, node=gc,
+                   instance=f"group-shape:{where}", message=f"cannot interpret `{unparse(gc)[:100]}`")
+            continue
+        g = f.cfg
+        batch = {_def_key(b.id, d) for d in reaching_defs(f, b.id, gc)}
+        # completed groups: `<g> = <map>.pop(<tag>)`
+        pops, bare = [], []
+        for n in f.body_nodes():
+            if isinstance(n, ast.Call) and isinstance(n.func, ast.Attribute) and n.func.attr == "pop" and is_name(n.func.value, m.id):
+                st = parent(n)
+                while isinstance(st, ast.Await):
+                    st = parent(st)
+                tgt = None
+                if isinstance(st, ast.Assign) and len(st.targets) == 1 and is_name(st.targets[0]):
+                    tgt = st.targets[0].id
+                elif isinstance(st, ast.AnnAssign) and is_name(st.target):
+                    tgt = st.target.id
+                elif isinstance(st, ast.NamedExpr):
+                    tgt = st.target.id
+                (pops if tgt else bare).append((n, st, tgt))
+        for n, st, _ in bare:
+            if isinstance(st, ast.Expr):
+                ctx.observe(f"C07.R6: {f.qualname}: `{unparse(st)}` discards the completed tag group; provenance recorded in that "
+                            "region comes from the last received batch (equal to the group only when all ports deliver tags in the same order)")
+            else:
+                ctx.ob("R6", f"{where}: the completed tag group is bound to a local", False, func=f, node=n,
+                       instance=f"group-bind:{where}", message=f"cannot interpret the use of `{unparse(n)}` in `{unparse(st)[:100]}`")
+        for n, st, tgt in pops:
+            pid = g.node_containing(n)
+            ctx.require(bool(pid), f"C07.R6: {f.qualname}: `{unparse(st)[:80]}` not found in the CFG")
+            stale = []
+            for node in g.nodes.values():
+                if node.id in pid or not g.dominates(pid, node.id):
+                    continue
+                for c, args in _processing_args(p, f, node, classes):
+                    for a in args:
+                        for nm, d in _slice(f, a, c):
+                            if _def_key(nm, d) in batch:
+                                stale.append((c, a, nm))
+                                break
+            what = f"`{unparse(stale[0][0])[:90]}` is computed from `{stale[0][2]}` as received by the last read" if stale else ""
+            ctx.ob("R6", f"{where}: after `{tgt} = {m.id}.pop(..)` only the completed tag group is processed and recorded", not stale,
+                   func=f, node=stale[0][0] if stale else st, instance=f"group:{where}",
+                   message=f"{what}, not from the completed tag group `{unparse(st)[:60]}`: the recorded inputs are the tokens of the "
+                           "last batch (other tags) whenever ports deliver tags in different orders",
+                   witness=[f"line {c.lineno}: {unparse(a)[:80]}" for c, a, _ in stale[:6]])
+
+
+# --------------------------------------------------------------------------- R7
+
+
+def _is_token_ctor(p, f, e) -> bool:
+    e = strip_await(e)
+    if not isinstance(e, ast.Call):
+        return False
+    return any(r in p.classes and p.is_subclass(r, TOKEN) for r in p.resolve_call(f, e))
+
+
+def _self_field(e):
+    """`A` when `e` is rooted at `self.A` (self.A, self.A[k], self.A[k].x, self.A.get(k), ...)."""
+    while True:
+        if isinstance(e, ast.Attribute) and is_name(e.value, "self"):
+            return e.attr
+        if isinstance(e, (ast.Attribute, ast.Subscript, ast.Starred)):
+            e = e.value
+        elif isinstance(e, ast.Call):
+            e = e.func
+        else:
+            return None
+
+
+def _recorded_fields(p, classes):
+    """{(class, field): [consumer Func]}: step fields read by the get_entity_ids collection of a _persist_token site."""
+    out = {}
+    for f, call in _persist_sites(p, classes):
+        ids = kwarg(call, "input_token_ids", 2)
+        if ids is None:
+            continue
+        for o in _follow(f, ids):
+            if not (isinstance(o, ast.Call) and resolves_to(p, f, o, GEI) and o.args):
+                continue
+            for coll in _follow(f, o.args[0]):
+                for x in ast.walk(coll):
+                    if isinstance(x, ast.Attribute) and is_name(x.value, "self") and p.resolve_method(f.cls.qualname, x.attr) is None:
+                        out.setdefault((f.cls.qualname, x.attr), [])
+                        if f not in out[(f.cls.qualname, x.attr)]:
+                            out[(f.cls.qualname, x.attr)].append(f)
+    return out
+
+
+def _field_stores(f, field):
+    """(statement or call, target text or None, stored value) for the stores into `self.<field>` in `f`."""
+    out = []
+    for n in f.body_nodes():
+        if isinstance(n, (ast.Assign, ast.AnnAssign)) and n.value is not None:
+            for t in (n.targets if isinstance(n, ast.Assign) else [n.target]):
+                if not is_name(t) and _self_field(t) == field:
+                    out.append((n, unparse(t), n.value))
+        elif isinstance(n, ast.Call) and isinstance(n.func, ast.Attribute) and n.func.attr in ("append", "add", "insert", "setdefault", "appendleft") \
+                and _self_field(n.func.value) == field and n.args:
+            out.append((n, None, n.args[-1]))
+    return out
+
+
+def r7(ctx):
+    p = ctx.prog
+    classes = _step_classes(p)
+    fields = _recorded_fields(p, classes)
+    ctx.require(any(a == "size_map" for _, a in fields), f"C07.R7: GatherStep.size_map is no longer recorded as an input ({sorted(fields)})")
+    for (cq, field), consumers in sorted(fields.items()):
+        family = [c for c in classes if p.is_subclass(c, cq) or p.is_subclass(cq, c)]
+        # methods whose call leads to the recording site (the consumer itself and its direct callers in the family)
+        cons = {c.qualname for c in consumers}
+        for q in list(cons):
+            cons.update(cf.qualname for cf, _ in p.callers(q) if cf.cls is not None and cf.cls.qualname in family and cf.name != "run")
+        fresh = 0
+        for c in sorted(family):
+            for F in p.cls(c).methods.values():
+                for st, tgt, val in _field_stores(F, field):
+                    ctors = [e for e in _follow(F, val) if _is_token_ctor(p, F, e)]
+                    if not ctors:
+                        continue
+                    fresh += 1
+                    g = F.cfg
+                    where = F.qualname.split(".", 2)[-1]
+                    aliases = {x for x in (tgt, val.id if is_name(val) else None) if x}
+                    saves = [n.id for n in g.nodes.values() for k in n.calls()
+                             if isinstance(k.func, ast.Attribute) and k.func.attr == "save" and unparse(k.func.value) in aliases
+                             and isinstance(parent(k), ast.Await)]
+                    src = [i for e in ctors for i in g.node_containing(e)]
+                    ctx.require(bool(src), f"C07.R7: {F.qualname}: construction `{unparse(ctors[0])[:60]}` not found in the CFG")
+                    calls = [n.id for n in g.nodes.values() if any(set(p.resolve_call(F, k)) & cons for k in n.calls())]
+                    after = [i for i in calls if any(g.path(s_, [i]) is not None for s_ in src)]
+                    targets = after or [g.exit]
+                    ok = bool(saves) and all(must_pass(g, s_, targets, saves) for s_ in src)
+                    bad = next((g.path(s_, targets, avoid=saves) for s_ in src if not must_pass(g, s_, targets, saves)), None) if saves else None
+                    ctx.ob("R7", f"{where}: the fresh token stored in self.{field} is saved before {', '.join(sorted(q.rpartition('.')[2] for q in cons))} records it",
+                           ok, func=F, node=st, instance=f"fresh:{where}:{field}",
+                           message=f"`{unparse(st)[:90]}` stores a token without id in self.{field}, which "
+                                   f"{consumers[0].qualname.split('.', 2)[-1]} hands to get_entity_ids: "
+                                   + ("it is never saved (awaited) here" if not saves else "a path reaches the recording call before the awaited save")
+                                   + "; get_entity_ids drops it silently, the emitted token loses this provenance edge (and the dependee "
+                                     "would be persisted after its depender)",
+                           witness=g.describe(bad) if bad else [])
+        ctx.ob("R7", f"{cq.rpartition('.')[2]}.{field}: stores of fresh tokens enumerated ({fresh})", True, func=consumers[0], node=consumers[0].node,
+               instance=f"fresh-enum:{cq}:{field}", trivial=True)
+
+
+# --------------------------------------------------------------------------- R8
+
+
+class _Subst(ast.NodeTransformer):
+    def __init__(self, env, generalise):
+        self.env, self.generalise = env, generalise
+
+    def visit_Name(self, node):
+        return ast.Name(id=self.env[node.id], ctx=ast.Load()) if node.id in self.env else node
+
+    def visit_Subscript(self, node):
+        node = self.generic_visit(node)
+        if self.generalise and isinstance(node.slice, ast.Constant) and isinstance(node.slice.value, int):
+            return ast.Name(id=f"<each {unparse(node.value)}>", ctx=ast.Load())
+        return node
+
+
+def _render(e, env, generalise=False) -> str:
+    import copy
+
+    return unparse(_Subst(env, generalise).visit(copy.deepcopy(e)))
+
+
+def _describe(e, generalise=False) -> str:
+    """Canonical text of `e` with the loop / comprehension variables in scope replaced by what they range over
+    (`for k, t in X.items()` and `for t in X.values()` give the same text for `t`)."""
+    env: dict[str, str] = {}
+    for tgt, it in reversed(binders(e)):  # outermost first: inner binders see (and shadow) outer ones
+        if is_name(tgt):
+            env[tgt.id] = f"<each {_render(it, env)}>"
+        elif isinstance(tgt, (ast.Tuple, ast.List)):
+            new = {}
+            for i, el in enumerate(tgt.elts):
+                if not is_name(el):
+                    continue
+                if isinstance(it, ast.Call) and isinstance(it.func, ast.Attribute) and it.func.attr == "items" and not it.args and i < 2:
+                    new[el.id] = f"<each {_render(it.func.value, env)}.{'keys' if i == 0 else 'values'}()>"
+                else:
+                    new[el.id] = f"<each {_render(it, env)}>#{i}"
+            env.update(new)
+    return _render(e, env, generalise)
+
+
+def _closure(f, e, depth=6):
+    """Expressions `e` is computed from: `e` and, transitively, the values assigned to the locals it mentions
+    (flow-insensitive; loop variables are not followed, _describe expands them)."""
+    out, seen, todo = [], set(), [(e, depth)]
+    while todo:
+        x, dep = todo.pop()
+        out.append(x)
+        if not dep:
+            continue
+        for n in ast.walk(x):
+            if isinstance(n, ast.Name) and isinstance(n.ctx, ast.Load) and n.id not in seen:
+                seen.add(n.id)
+                for d in defs_of(f, n.id):
+                    if d.kind in ("assign", "walrus", "aug") and d.value is not None:
+                        todo.append((d.value, dep - 1))
+    return out
+
+
+def _entry_bases(f, e, key):
+    """Bases B of the `B['<key>']` subscripts in the def-use closure of `e`."""
+    return [x.value for c in _closure(f, e) for x in ast.walk(c) if isinstance(x, ast.Subscript) and const(x.slice) == key]
+
+
+def r8(ctx):
+    p = ctx.prog
+    for cq in sorted([COMBINATOR, *p.subclasses(COMBINATOR)]):
+        for f in p.cls(cq).methods.values():
+            where = f.qualname.split(".", 2)[-1]
+            n_entry = 0
+            for d in f.body_nodes():
+                if not isinstance(d, ast.Dict):
+                    continue
+                kv = {const(k): v for k, v in zip(d.keys, d.values) if k is not None}
+                if "token" not in kv or "input_ids" not in kv:
+                    continue
+                n_entry += 1
+                T, I = kv["token"], kv["input_ids"]
+                need = [(_describe(b), _describe(b, True), f"{unparse(b)}['token']") for b in _entry_bases(f, T, "token")]
+                have = {_describe(b) for b in _entry_bases(f, I, "input_ids")}
+                have |= {_describe(x.value) for c in _closure(f, I) for x in ast.walk(c)
+                         if isinstance(x, ast.Attribute) and x.attr == "persistent_id"}
+                if not need:
+                    # a plain token (not a schema entry): `tok`, `tok.retag(..)`, `tok.update(..)`
+                    r = strip_await(T)
+                    while isinstance(r, ast.Call) and isinstance(r.func, ast.Attribute) and r.func.attr in ("retag", "update"):
+                        r = r.func.value
+                    if is_name(r) or isinstance(r, (ast.Subscript, ast.Attribute)):
+                        need = [(_describe(r), _describe(r, True), unparse(r))]
+                    elif not _is_token_ctor(p, f, r):
+                        ctx.ob("R8", f"{where}: the sources of a combined token can be identified", False, func=f, node=d,
+                               instance=f"entry-shape:{where}:{n_entry}", message=f"cannot relate `{unparse(T)[:80]}` to the schema entries it is made of")
+                        continue
+                missing = [txt for exact, gen, txt in need if exact not in have and gen not in have]
+                ctx.ob("R8", f"{where}: the input_ids of a combined entry cover every token it is made of", not missing, func=f, node=d,
+                       instance=f"entry:{where}:{n_entry}",
+                       message=f"the token is computed from {', '.join(f'`{m}`' for m in dict.fromkeys(missing))} but `input_ids={unparse(I)[:70]}` "
+                               f"collects ids only from {sorted(have) or 'nothing'}: CombinatorStep records an incomplete provenance "
+                               "for the combined token")
+
+
+RULES = [("R1", r1), ("R2", r2), ("R3", r3), ("R4", r4), ("R5", r5), ("R6", r6), ("R7", r7), ("R8", r8)]
+FLOORS = {"R1": 40, "R2": 8, "R3": 11, "R4": 2, "R5": 20, "R6": 5, "R7": 2, "R8": 6}
 
 _GATHER_PUT = "output_port.put(await self._persist_token(token=ListToken(tag=key, value=sorted(self.token_map[key], key=cmp_to_key(lambda x, y: compare_tags(x.tag, y.tag)))), port=output_port, input_token_ids=get_entity_ids([self.size_map[key], *self.token_map[key]])))"
 
